@@ -45,14 +45,21 @@ structure World (α : Type) where
   abs : Nat → Prop
   RO : LayoutOutput α → LayoutOutput α → Prop
   RL : Layout α → Layout α → Prop
+  /-- `PRelW` only (C06): a run that has panicked on the left is related to every run -/
+  errL : Prop := False
+  /-- `PRelW` only (C06): a run that has panicked on the right is related to every run -/
+  errR : Prop := False
 
 /-- answers related by `RO` have the same `size` and `first_baselines` — all the track sizing algorithm reads -/
 structure World.Reads (w : World α) : Prop where
   size : ∀ a b, w.RO a b → a.size = b.size
   baselines : ∀ a b, w.RO a b → a.firstBaselines = b.firstBaselines
 
-def World.eq : World α := ⟨fun _ => False, Eq, Eq⟩
-def World.absW (abs : Nat → Prop) : World α := ⟨abs, C06.OutEqv, C06.LayEqv⟩
+def World.eq : World α := { abs := fun _ => False, RO := Eq, RL := Eq }
+def World.absW (abs : Nat → Prop) : World α := { abs := abs, RO := C06.OutEqv, RL := C06.LayEqv }
+/-- the world of C06 in which panics on the left (`eL`) / on the right (`eR`) are tolerated -/
+def World.absE (abs : Nat → Prop) (eL eR : Prop) : World α :=
+  { abs := abs, RO := C06.OutEqv, RL := C06.LayEqv, errL := eL, errR := eR }
 
 theorem World.eq_reads : (World.eq : World α).Reads := ⟨fun _ _ h => by rw [h], fun _ _ h => by rw [h]⟩
 theorem World.absW_reads (abs : Nat → Prop) : (World.absW abs : World α).Reads :=
@@ -212,5 +219,133 @@ theorem GRel.to_eq {p q : GM α β} (h : GRel (World.eq : World α) Eq p q) : p 
     PRel.mono h fun r r' hr => by
       cases r <;> cases r' <;> first | (rw [show _ = _ from hr]) | exact hr.elim
   exact PRel.to_eq h'
+
+/-! ### related up to panics (C06)
+
+`PRelW w Q p q`: as `PRel w (ExRel Q) p q`, except that a run that has panicked on the left (when `w.errL`) or on the
+right (when `w.errR`) is related to every run of the other side.  It composes (`GRelW.bind`: a panic ends the `GM`
+program), every `GRel` is a `GRelW`, and a `GRelW` between programs that cannot panic on the tolerated sides is a `GRel`
+(`GRelW.to_GRel`). -/
+
+inductive PRelW {β γ : Type} (w : World α) (Q : β → γ → Prop) :
+    ProgM α (Except String β) → ProgM α (Except String γ) → Prop where
+  | pure (a : Except String β) (b : Except String γ) : ExRel Q a b → PRelW w Q (.pure a) (.pure b)
+  | call (i : Nat) (inp : LayoutInput α) (kA : LayoutOutput α → ProgM α (Except String β))
+      (kB : LayoutOutput α → ProgM α (Except String γ)) :
+      ¬ w.abs i → (∀ oA oB, w.RO oA oB → PRelW w Q (kA oA) (kB oB)) → PRelW w Q (.call i inp kA) (.call i inp kB)
+  | setLayout (i : Nat) (lA lB : Layout α) (kA : Unit → ProgM α (Except String β))
+      (kB : Unit → ProgM α (Except String γ)) :
+      w.RL lA lB → PRelW w Q (kA ()) (kB ()) → PRelW w Q (.setLayout i lA kA) (.setLayout i lB kB)
+  | callL (i : Nat) (inp : LayoutInput α) (kA : LayoutOutput α → ProgM α (Except String β))
+      (q : ProgM α (Except String γ)) :
+      w.abs i → (∀ o, PRelW w Q (kA o) q) → PRelW w Q (.call i inp kA) q
+  | callR (i : Nat) (inp : LayoutInput α) (p : ProgM α (Except String β))
+      (kB : LayoutOutput α → ProgM α (Except String γ)) :
+      w.abs i → (∀ o, PRelW w Q p (kB o)) → PRelW w Q p (.call i inp kB)
+  | setL (i : Nat) (l : Layout α) (kA : Unit → ProgM α (Except String β)) (q : ProgM α (Except String γ)) :
+      w.abs i → PRelW w Q (kA ()) q → PRelW w Q (.setLayout i l kA) q
+  | setR (i : Nat) (l : Layout α) (p : ProgM α (Except String β)) (kB : Unit → ProgM α (Except String γ)) :
+      w.abs i → PRelW w Q p (kB ()) → PRelW w Q p (.setLayout i l kB)
+  | errL (e : String) (q : ProgM α (Except String γ)) : w.errL → PRelW w Q (.pure (.error e)) q
+  | errR (e : String) (p : ProgM α (Except String β)) : w.errR → PRelW w Q p (.pure (.error e))
+
+def GRelW (w : World α) (Q : β → γ → Prop) (p : GM α β) (q : GM α γ) : Prop := PRelW w Q p.run q.run
+
+theorem PRelW.of_PRel {Q : β → γ → Prop} {p : ProgM α (Except String β)} {q : ProgM α (Except String γ)}
+    (h : PRel w (ExRel Q) p q) : PRelW w Q p q := by
+  induction h with
+  | pure a b hab => exact .pure a b hab
+  | call i inp k1 k2 hi _ ih => exact .call i inp _ _ hi ih
+  | setLayout i lA lB k1 k2 hl _ ih => exact .setLayout i lA lB _ _ hl ih
+  | callL i inp k1 q hi _ ih => exact .callL i inp _ _ hi ih
+  | callR i inp p k2 hi _ ih => exact .callR i inp _ _ hi ih
+  | setL i l k1 q hi _ ih => exact .setL i l _ _ hi ih
+  | setR i l p k2 hi _ ih => exact .setR i l _ _ hi ih
+
+theorem GRelW.of_GRel {Q : β → γ → Prop} {p : GM α β} {q : GM α γ} (h : GRel w Q p q) : GRelW w Q p q :=
+  PRelW.of_PRel h
+
+theorem PRelW.bindCont {Q : β → γ → Prop} {Q' : β' → γ' → Prop} {p : ProgM α (Except String β)}
+    {q : ProgM α (Except String γ)} (h : PRelW w Q p q) {f : β → GM α β'} {g : γ → GM α γ'}
+    (hfg : ∀ a b, Q a b → PRelW w Q' (f a).run (g b).run) :
+    PRelW w Q' (ProgM.bind p (ExceptT.bindCont f)) (ProgM.bind q (ExceptT.bindCont g)) := by
+  induction h with
+  | pure a b hab =>
+    cases a with
+    | ok a =>
+      cases b with
+      | ok b => exact hfg a b hab
+      | error e => exact hab.elim
+    | error e =>
+      cases b with
+      | ok b => exact hab.elim
+      | error e' => exact .pure _ _ hab
+  | call i inp k1 k2 hi _ ih => exact .call i inp _ _ hi (fun oA oB ho => ih oA oB ho)
+  | setLayout i lA lB k1 k2 hl _ ih => exact .setLayout i lA lB _ _ hl ih
+  | callL i inp k1 q hi _ ih =>
+    simp only [ProgM.bind]
+    exact .callL i inp _ _ hi (fun o => ih o)
+  | callR i inp p k2 hi _ ih =>
+    simp only [ProgM.bind]
+    exact .callR i inp _ _ hi (fun o => ih o)
+  | setL i l k1 q hi _ ih =>
+    simp only [ProgM.bind]
+    exact .setL i l _ _ hi ih
+  | setR i l p k2 hi _ ih =>
+    simp only [ProgM.bind]
+    exact .setR i l _ _ hi ih
+  | errL e q hl => exact .errL e _ hl
+  | errR e p hr => exact .errR e _ hr
+
+theorem GRelW.bind {Q : β → γ → Prop} {Q' : β' → γ' → Prop} {p : GM α β} {q : GM α γ} (h : GRelW w Q p q)
+    {f : β → GM α β'} {g : γ → GM α γ'} (hfg : ∀ a b, Q a b → GRelW w Q' (f a) (g b)) :
+    GRelW w Q' (p >>= f) (q >>= g) :=
+  PRelW.bindCont h hfg
+
+theorem GRelW.pure {Q : β → γ → Prop} {a : β} {b : γ} (h : Q a b) : GRelW w Q (Pure.pure a : GM α β) (Pure.pure b) :=
+  PRelW.pure _ _ h
+
+theorem GRelW.ite {Q : β → γ → Prop} {c : Prop} [Decidable c] {p1 p2 : GM α β} {q1 q2 : GM α γ}
+    (h1 : GRelW w Q p1 q1) (h2 : GRelW w Q p2 q2) : GRelW w Q (if c then p1 else p2) (if c then q1 else q2) := by
+  split
+  · exact h1
+  · exact h2
+
+/-- a panic on the left, when tolerated -/
+theorem GRelW.throwL {Q : β → γ → Prop} (hl : w.errL) (e : String) (q : GM α γ) : GRelW w Q (throw e : GM α β) q :=
+  PRelW.errL e _ hl
+
+/-- a panic on the right, when tolerated -/
+theorem GRelW.throwR {Q : β → γ → Prop} (hr : w.errR) (e : String) (p : GM α β) : GRelW w Q p (throw e : GM α γ) :=
+  PRelW.errR e _ hr
+
+/-- no run of the program ends in a panic, whatever the children answer -/
+def NoErr {β : Type} : ProgM α (Except String β) → Prop
+  | .pure r => ∃ b, r = .ok b
+  | .call _ _ k => ∀ o, NoErr (k o)
+  | .setLayout _ _ k => NoErr (k ())
+
+theorem PRelW.to_PRel {Q : β → γ → Prop} {p : ProgM α (Except String β)} {q : ProgM α (Except String γ)}
+    (h : PRelW w Q p q) (hL : w.errL → NoErr p) (hR : w.errR → NoErr q) : PRel w (ExRel Q) p q := by
+  induction h with
+  | pure a b hab => exact .pure a b hab
+  | call i inp k1 k2 hi _ ih =>
+    exact .call i inp _ _ hi fun oA oB ho => ih oA oB ho (fun e => hL e oA) (fun e => hR e oB)
+  | setLayout i lA lB k1 k2 hl _ ih => exact .setLayout i lA lB _ _ hl (ih hL hR)
+  | callL i inp k1 q hi _ ih => exact .callL i inp _ _ hi fun o => ih o (fun e => hL e o) hR
+  | callR i inp p k2 hi _ ih => exact .callR i inp _ _ hi fun o => ih o hL (fun e => hR e o)
+  | setL i l k1 q hi _ ih => exact .setL i l _ _ hi (ih hL hR)
+  | setR i l p k2 hi _ ih => exact .setR i l _ _ hi (ih hL hR)
+  | errL e q hl =>
+    obtain ⟨b, hb⟩ := hL hl
+    cases hb
+  | errR e p hr =>
+    obtain ⟨b, hb⟩ := hR hr
+    cases hb
+
+/-- programs related up to panics that cannot panic on the tolerated sides are related -/
+theorem GRelW.to_GRel {Q : β → γ → Prop} {p : GM α β} {q : GM α γ} (h : GRelW w Q p q)
+    (hL : w.errL → NoErr p.run) (hR : w.errR → NoErr q.run) : GRel w Q p q :=
+  PRelW.to_PRel h hL hR
 
 end GridRel
